@@ -10,6 +10,10 @@
 (*   index_unit=       the override rule of LASFile.read                     *)
 (*   dtypes=           list / dict / False                                   *)
 (*   ignore_data       header only                                           *)
+(*   unit detection    index_unit from the units of STRT/STOP/STEP/curve 0   *)
+(*   depth_m/depth_ft  the conversion chosen by substring tests              *)
+(*   update_start_stop_step   which of the three values come from the index  *)
+(*   to_csv            which header lines mnemonics= / units= / units_loc= give *)
 (*   encoding choice   which codec a file on disk is opened with (BOM,       *)
 (*                     encoding=, ad hoc trial of ascii / windows-1252 /     *)
 (*                     latin-1 on the FIRST line) when chardet is not asked  *)
@@ -99,10 +103,58 @@ EncodingChoice(bom, explicit, content) ==
            [] content \in {"first1252", "late"} -> "windows-1252"
            [] content = "first81" -> "latin-1"
 
+\* ---- index unit detection (no index_unit= argument) -------------------------------------------------
+\* the units of ~Well STRT / STOP / STEP and of the first curve are compared, case-insensitively, with the spellings of the three
+\* families in defaults.DEPTH_UNITS; exactly one family among those that match -> that family, none or several -> None
+UnitFamily(u) == CASE u \in {"FT", "ft", "F", "feet"} -> "FT"
+                   [] u \in {"M", "m", "METRES", "Meter"} -> "M"
+                   [] u \in {"0.1IN", "0.1inch"} -> ".1IN"
+                   [] OTHER -> "none"                      \* "", "S", "MM", "FEETS", "IN" ... belong to no family
+DetectUnit(us) == LET fams == {UnitFamily(us[i]) : i \in DOMAIN us} \ {"none"}
+                  IN IF Cardinality(fams) = 1 THEN CHOOSE f \in fams : TRUE ELSE "None"
+
+\* ---- depth_m / depth_ft -----------------------------------------------------------------------------
+\* decided on LASFile.index_unit by *substring* tests in this order: contains M, contains F, contains .1IN (upper-cased)
+UnitContains(u, code) == CASE code = "M" -> u \in {"M", "m", "FM", "MM", "metres"}
+                       [] code = "F" -> u \in {"FT", "ft", "FM", "feet", "F"}
+                       [] code = ".1IN" -> u \in {".1IN", "0.1inch"}
+DepthFactor(u, want) ==        \* the arithmetic applied to the index, as a tag the driver recomputes bit for bit
+    IF u = "None" THEN "LASUnknownUnitError"
+    ELSE IF UnitContains(u, "M") THEN (IF want = "m" THEN "index" ELSE "index/0.3048")
+    ELSE IF UnitContains(u, "F") THEN (IF want = "m" THEN "index*0.3048" ELSE "index")
+    ELSE IF UnitContains(u, ".1IN") THEN (IF want = "m" THEN "(index/120)*0.3048" ELSE "index/120")
+    ELSE "LASUnknownUnitError"
+
+\* ---- update_start_stop_step(STRT, STOP, STEP) ---------------------------------------------------------
+\* index kinds: "nocurves" (no curve at all), "len0", "len1", "regular", "irregular" (first difference differs from the others)
+\* each argument is given ("arg") or left None; the three are filled in order inside one try block, an IndexError leaves the rest None
+SSS(kind, strt, stop, step) ==
+    LET broken == kind \in {"nocurves", "len0"}
+        s1 == IF strt THEN "arg" ELSE IF broken THEN "None" ELSE "fmt(index[0])"
+        stopReached == strt \/ ~broken                       \* the try block got past the STRT statement
+        s2 == IF stop THEN "arg" ELSE IF broken \/ ~stopReached THEN "None" ELSE "fmt(index[-1])"
+        s3 == IF step THEN "arg" ELSE IF kind \in {"regular", "irregular"} THEN "fmt(index[1]-index[0])" ELSE "None"
+    IN <<s1, s2, s3>>
+
+\* ---- to_csv header lines --------------------------------------------------------------------------------
+\* mnemonics / units: "true" (taken from the curves), "false", "list" (supplied, non-empty), "empty" (supplied, []);  units_loc: "line", "[]", "()", "none"
+CsvHeader(mn, un, loc) ==
+    LET hasM == mn \in {"true", "list"}
+        hasU == un \in {"true", "list"}
+        first == IF ~hasM THEN <<>>
+                 ELSE IF loc \in {"[]", "()"} /\ hasU THEN <<mn \o "-mnemonics " \o loc \o " " \o un \o "-units">>
+                 ELSE <<mn \o "-mnemonics">>
+        second == IF hasU /\ loc = "line" THEN <<un \o "-units">> ELSE <<>>
+    IN first \o second
+
+\* ---- ignore_data -------------------------------------------------------------------------------------------
+IgnoreData(flag, rows) == IF flag THEN 0 ELSE rows          \* length of every declared curve
+
 \* ---- instances -----------------------------------------------------------------
 Perms(S) == {p \in [1..Cardinality(S) -> S] : \A i, j \in DOMAIN p : i # j => p[i] # p[j]}
 Values == {"999.25", "-999.25", "9999.25", "-9999.25", "999", "-999", "9999.99", "2147483647", "32767", "-0.5", "7", "-9999"}
-Stage1 == {"stack", "null", "unit", "dtypes", "route", "enc"}
+Stage1 == {"stack", "null", "unit", "dtypes", "route", "enc", "unitdet", "depth", "sss", "csv", "igdata"}
+DetUnits == {"FT", "ft", "F", "M", "m", "METRES", "0.1IN", "S", "", "MM"}
 Fine(k) ==
     CASE k = "stack" ->
            {[kind |-> "stack", keys |-> p, arg |-> a, sort |-> s,
@@ -125,6 +177,19 @@ Fine(k) ==
       [] k = "enc" ->
            {[kind |-> "enc", bom |-> b, explicit |-> e, content |-> c, expect |-> EncodingChoice(b, e, c)] :
                b \in BOOLEAN, e \in {"none", "utf-8", "latin-1", "cp1252"}, c \in {"ascii", "late", "verylate", "first1252", "first81"}}
+      [] k = "unitdet" ->
+           {[kind |-> "unitdet", units |-> us, expect |-> DetectUnit(us)] : us \in [1..4 -> DetUnits]}
+      [] k = "depth" ->
+           {[kind |-> "depth", unit |-> u, want |-> w, expect |-> DepthFactor(u, w)] :
+               u \in {"M", "m", "FM", "MM", "metres", "FT", "ft", "feet", "F", ".1IN", "0.1inch", "S", "None"}, w \in {"m", "ft"}}
+      [] k = "sss" ->
+           {[kind |-> "sss", index |-> ik, strt |-> a, stop |-> b, step |-> c, expect |-> SSS(ik, a, b, c)] :
+               ik \in {"nocurves", "len0", "len1", "regular", "irregular"}, a \in BOOLEAN, b \in BOOLEAN, c \in BOOLEAN}
+      [] k = "csv" ->
+           {[kind |-> "csv", mn |-> m, un |-> u, loc |-> lc, expect |-> CsvHeader(m, u, lc)] :
+               m \in {"true", "false", "list", "empty"}, u \in {"true", "false", "list", "empty"}, lc \in {"line", "[]", "()", "none"}}
+      [] k = "igdata" ->
+           {[kind |-> "igdata", flag |-> f, rows |-> n, expect |-> IgnoreData(f, n)] : f \in BOOLEAN, n \in 0..3}
 Init == stage = 0 /\ inst = [kind |-> "seed"]
 Next == \/ stage = 0 /\ stage' = 1 /\ \E k \in Stage1 : inst' = [kind |-> k]
         \/ stage = 1 /\ stage' = 2 /\ \E x \in Fine(inst.kind) : inst' = x
